@@ -88,12 +88,58 @@ def aggregate(transform, method, vals, overall):
     raise KeyError(transform)
 
 
+# --------------------------------------------------------------------------- make_derived_metric plumbing
+def dm_plain(y_true, y_pred, sample_weight=None, scale=1.0):
+    """scale x weighted mean prediction; a weight array of the wrong length is rejected"""
+    w = np.ones(len(y_pred)) if sample_weight is None else np.asarray(sample_weight, dtype=float)
+    if len(w) != len(y_pred):
+        raise ValueError("length")
+    return float(scale) * float(np.dot(np.asarray(y_pred, dtype=float), w) / w.sum())
+
+
+def dm_kwargs(y_true, y_pred, **kw):
+    return dm_plain(y_true, y_pred, sample_weight=kw.get("sample_weight"), scale=kw.get("scale", 1.0))
+
+
+def dm_method(y_true, y_pred, method="x", sample_weight=None):
+    return dm_plain(y_true, y_pred, sample_weight=sample_weight)
+
+
+class DmInstance:
+    def __call__(self, y_true, y_pred, sample_weight=None, scale=1.0):
+        return dm_plain(y_true, y_pred, sample_weight=sample_weight, scale=scale)
+
+
+# kind -> (object factory, callable, has __name__, accepts **kw, keyword parameters in inspect.signature)
+DM_KINDS = {
+    "plain": (lambda: dm_plain, True, True, False, ["sample_weight", "scale"]),
+    "kwargs": (lambda: dm_kwargs, True, True, True, ["kw"]),
+    "method": (lambda: dm_method, True, True, False, ["method", "sample_weight"]),
+    "partial": (lambda: __import__("functools").partial(dm_plain), True, False, False, ["sample_weight", "scale"]),
+    "instance": (lambda: DmInstance(), True, False, False, ["sample_weight", "scale"]),
+    "noncallable": (lambda: 3.5, False, False, False, []),
+}
+DM_TRANSFORMS = ["difference", "ratio", "group_min", "group_max"]
+DM_SPN = [None, "default", [], ["sample_weight"], ["sample_weight", "method"], ["method"], ["zzz"], ["zzz", "sample_weight"]]
+
+
+def dm_case(rng):
+    kind = rng.choice(["plain"] * 6 + ["kwargs"] * 3 + ["method", "partial", "instance", "noncallable"])
+    tr = rng.choice(DM_TRANSFORMS * 3 + ["diff", "Ratio", "group_mean", ""])
+    return {"kind": kind, "transform": tr, "spn": rng.choice(DM_SPN + ["default"] * 4),
+            "sw": rng.random() < 0.6, "scale": rng.choice([None, None, "2", "1/2", "3"]),   # positive: -1 * 0.0 = -0.0 (not modelled)
+            "method": rng.choice([None, None, "between_groups", "to_overall", "to_overall", "zzz"]),
+            "extra": rng.random() < 0.08}
+
+
 @register
 class CHECK(Check):
     pid = "C03"
     technique = ("Lean 4 theorems: base rates = first-principles weighted ratios on every slice, the named/generated functions "
                  "= Frame+Aggregate composition read from tables LIFTED from _fairness_metrics.py/_generated_metrics.py/"
-                 "_make_derived_metric.py; compiled-driver correspondence with the public fairlearn.metrics functions")
+                 "_make_derived_metric.py; compiled-driver correspondence with the public fairlearn.metrics functions; the argument "
+                 "plumbing of _DerivedMetric.__init__/__call__ (validation steps, routing chain of **other_params, default "
+                 "sample_param_names, the __name__ read) lifted into Generated/DerivedSpec.lean and modelled in Model/Derived.lean")
     level_text = ("Theorems (all datasets, any group structure incl. single-member groups and empty denominators, any positive "
                   "weights): selection_rate/TPR/FPR cells equal the direct weighted ratios (TPR/FPR := 0 on an empty "
                   "denominator); the values the aggregates see are exactly {rate(g) : g observed group} and overall = rate(all "
@@ -101,7 +147,13 @@ class CHECK(Check):
                   "resp. min ratio_sub_one(rate_g/rate_all); equalized odds = Python max/min resp. mean of the TPR and FPR "
                   "disparities; generated names/dispatch tables lifted from source; make_derived_metric = the MetricFrame call. "
                   "Tie: 6 named + 25 generated functions + make_derived_metric with a bound non-sample parameter vs the compiled "
-                  "model (pool bases) and vs an independent Fraction oracle (sklearn-only bases: sklearn on first-principles slices).")
+                  "model (pool bases) and vs an independent Fraction oracle (sklearn-only bases: sklearn on first-principles slices). "
+                  "Added: make_derived_metric constructor succeeds iff callable, no 'method' parameter, transform in the 4 options, "
+                  "every failure is a ValueError; routing: name in sample_param_names -> sliced sample parameter (even 'method'), else "
+                  "'method' -> transform parameter, else bound with functools.partial; the routed call IS Fairness.derived; unknown "
+                  "method string -> ValueError for difference/ratio, ignored by group_min/group_max; a callable without __name__ "
+                  "raises AttributeError (finding F17); equalized odds for ANY pair of disparities incl. NaN/inf (Python max/min, "
+                  "NaN-skipping mean) and worst_case >= each component >= ... mean bounds.")
     design_ref = "DESIGN.md section 4, C03"
     quick_cases = 550
     thorough_cases = 6000
@@ -113,7 +165,12 @@ class CHECK(Check):
             "with positive integer/dyadic weights (a weighted single-row group is frequent: regression for defect F1); per dataset 6 "
             "(function, method, agg) combinations out of 65: the 6 named functions x {between_groups,to_overall} x {worst_case,"
             "mean}, all 25 generated <metric>_<transform> functions, make_derived_metric(selection_rate, t)(..., pos_label=0) for the "
-            "4 transforms; distinct = distinct (dataset, weights, grouping); non-trivial = >= 2 rows. thorough: EXHAUSTIVE over all "
+            "4 transforms; with probability 0.6 one make_derived_metric(metric, transform, sample_param_names)(..., **kw) experiment: "
+            "metric in {plain function, **kwargs function, function with a 'method' parameter, functools.partial, callable "
+            "instance, non-callable}, transform in the 4 options or malformed, sample_param_names in {None, default, [], "
+            "[sample_weight], [sample_weight,method], [method], [zzz], [zzz,sample_weight]}, kw subset of {sample_weight, scale, "
+            "method (valid or 'zzz'), foo}; "
+            "distinct = distinct (dataset, weights, grouping); non-trivial = >= 2 rows. thorough: EXHAUSTIVE over all "
             "(y, pred) vectors x all partitions into <= 3 groups x weights in {1,2}^n for n <= 4, and unweighted for n = 5, "
             "3 rotating combinations each")
     explanation = ("oracle: group rates from the rows in exact Fractions, then the documented aggregate (IEEE rules for x/0); for "
@@ -151,8 +208,9 @@ class CHECK(Check):
             else:
                 w = [str(F(rng.randint(1, 24), rng.choice([1, 2, 4, 8]))) for _ in range(n)]
             k = rng.sample(range(N_NAMED), 2) + rng.sample(range(N_NAMED, len(COMBOS)), 4)
+            dm = dm_case(rng) if rng.random() < 0.6 else None
             yield {"y": y, "pred": pred, "w": w, "sf": sf, "sf_container": cont, "combos": [COMBOS[i] for i in k],
-                   "ycontainer": rng.choice(["list", "ndarray", "series"])}
+                   "ycontainer": rng.choice(["list", "ndarray", "series"]), "dm": dm}
 
     def exhaustive(self, tier):
         def rgs(n, kmax):
@@ -178,6 +236,14 @@ class CHECK(Check):
 
     def shrink(self, case):
         n = len(case["y"])
+        if case.get("dm") and case["combos"]:
+            yield dict(case, combos=[])
+            yield dict(case, dm=None)
+        if case.get("dm"):
+            d = case["dm"]
+            for k2, v2 in (("extra", False), ("scale", None), ("method", None), ("sw", False)):
+                if d[k2]:
+                    yield dict(case, dm=dict(d, **{k2: v2}))
         if len(case["combos"]) > 1:
             for c in case["combos"]:
                 yield dict(case, combos=[c])
@@ -246,7 +312,36 @@ class CHECK(Check):
             if eq is not None:
                 res.append(eq)
             out.append(res)
-        return {"results": out}
+        ret = {"results": out}
+        if case.get("dm"):
+            ret["dm"] = self.impl_dm(case, y, pred, sf, w)
+        return ret
+
+    def impl_dm(self, case, y, pred, sf, w):
+        from fairlearn.metrics import make_derived_metric
+        d = case["dm"]
+        metric = DM_KINDS[d["kind"]][0]()
+        kw = {} if d["spn"] == "default" else {"sample_param_names": d["spn"]}
+        try:
+            dm = make_derived_metric(metric=metric, transform=d["transform"], **kw)
+        except Exception as ex:  # noqa: BLE001
+            return ["make", type(ex).__name__]
+        call = {"sensitive_features": sf}
+        if d["sw"]:
+            call["sample_weight"] = w if w is not None else np.ones(len(case["y"]))
+        if d["scale"] is not None:
+            call["scale"] = float(F(d["scale"]))
+        if d["method"] is not None:
+            call["method"] = d["method"]
+        if d["extra"]:
+            call["foo"] = 0
+        try:
+            with warnings.catch_warnings():
+                warnings.simplefilter("ignore")
+                r = dm(y, pred, **call)
+        except Exception as ex:  # noqa: BLE001
+            return ["exc", type(ex).__name__]
+        return ["val", mc.tok(r)]
 
     def _w(self, case):
         n = len(case["y"])
@@ -270,7 +365,94 @@ class CHECK(Check):
                 ls.append(f"fair.derived selrate {proto.s(fn.split(':')[2])} {meth or 'between_groups'} {ys} {ps} {ws} {cols}")
             else:
                 ls.append(f"fair.eval {proto.s(fn)} {meth or 'between_groups'} {agg or '-'} {ys} {proto.lst(case['pred'])} {ws} {cols}")
+        if case.get("dm"):
+            d = case["dm"]
+            _, cal, hasname, anykw, sig = DM_KINDS[d["kind"]]
+            spn = "none" if d["spn"] is None else proto.strs(self._spn(d))
+            sw = proto.lst(self._w(case)) if d["sw"] else "x"
+            ls.append(f"derived.call {proto.b(cal)} {proto.b(hasname)} {proto.b(anykw)} {proto.strs(sig)} {proto.s(d['transform'])} "
+                      f"{spn} {sw} {proto.rat(F(d['scale'])) if d['scale'] is not None else 'x'} "
+                      f"{proto.s(d['method']) if d['method'] is not None else 'x'} {proto.s('foo') if d['extra'] else 'x'} "
+                      f"{ys} {proto.lst(case['pred'])} {cols}")
         return ls
+
+    @staticmethod
+    def _spn(d):
+        return ["sample_weight"] if d["spn"] == "default" else (d["spn"] or [])
+
+    def oracle_dm(self, case):
+        """documented behaviour of make_derived_metric(...)(...) from first principles: ('make', E) | ('exc', E) | ('val', x)"""
+        d = case["dm"]
+        _, cal, hasname, anykw, sig = DM_KINDS[d["kind"]]
+        if not cal or "method" in sig or d["transform"] not in DM_TRANSFORMS:
+            return ("make", "ValueError")
+        spn = self._spn(d)
+        n = len(case["y"])
+        keys = [tuple(mc.enc_level(col[i]) for col in case["sf"]) for i in range(n)]
+        groups = sorted(set(keys))
+        # which keywords reach the metric function (sample parameters are sliced, the others are bound whole)
+        passed = {k for k, on in (("sample_weight", d["sw"]), ("scale", d["scale"] is not None), ("foo", d["extra"])) if on}
+        if d["method"] is not None and "method" in spn:
+            passed.add("method")
+        if not anykw and any(k not in sig for k in passed):
+            return ("exc", "TypeError")
+        w = [F(1)] * n
+        if d["sw"]:
+            if "sample_weight" in spn or len(groups) == 1:
+                w = self._w(case)
+            else:
+                return ("exc", "ValueError")        # the whole weight array meets a group slice
+        meth = "between_groups"
+        if d["method"] is not None and "method" not in spn and d["transform"] in ("difference", "ratio"):
+            if d["method"] not in ("between_groups", "to_overall"):
+                return ("exc", "ValueError")
+            meth = d["method"]
+        scale = F(d["scale"]) if d["scale"] is not None else F(1)
+
+        def val(idx):
+            return scale * sum(F(case["pred"][i]) * w[i] for i in idx) / sum(w[i] for i in idx)
+        vals = [val([i for i in range(n) if keys[i] == g]) for g in groups]
+        return ("val", aggregate(d["transform"], meth, vals, val(range(n))))
+
+    def judge_dm(self, case, o, mline):
+        d = case["dm"]
+        got = o.get("dm")
+        want = self.oracle_dm(case)
+        label = (f"make_derived_metric(metric=<{d['kind']}>, transform={d['transform']!r}, sample_param_names={d['spn']!r})"
+                 f"(sample_weight={'w' if d['sw'] else '-'}, scale={d['scale']}, method={d['method']!r}{', foo=0' if d['extra'] else ''})")
+        probs = []
+        nameless = not DM_KINDS[d["kind"]][2] and DM_KINDS[d["kind"]][1]
+        ok = True
+        if want[0] in ("make", "exc"):
+            if not (got[0] == want[0] and got[1] == want[1]):
+                ok = False
+                p = Problem("property", f"{label}: expected {want[1]} ({'constructor' if want[0] == 'make' else 'call'}), got {got}",
+                            "C03.derived_errors")
+                p.info = {"nameless": nameless, "got": got}
+                probs.append(p)
+        elif got[0] != "val" or not mc.same(got[1], want[1], TOL):
+            ok = False
+            p = Problem("property", f"{label} = {got}, the equivalent MetricFrame call gives {x_tok(want[1])}", "C03.derived_eq_metricframe")
+            p.info = {"nameless": nameless, "got": got}
+            probs.append(p)
+        if mline is not None:
+            if mline == "bad-op":
+                return probs + [Problem("harness", f"{label}: driver bad-op")]
+            # the model follows the lifted name rule: with a plain `.__name__` read a callable without __name__ raises
+            # AttributeError at call time (finding F17, repaired by be74ce5); with the getattr fallback it answers
+            if mline.startswith("make:"):
+                mtok = ("make", mline[5:])
+            elif mline.startswith("value:"):
+                mtok = ("val", mc.model_tok(mline[6:]))
+            else:
+                mtok = ("exc", mline)
+            m_ok = (mtok == want) or (mtok[0] == "val" and want[0] == "val" and mtok[1] == want[1])
+            if not m_ok and ok:
+                probs.append(Problem("harness", f"{label}: model {mline} vs oracle {want}"))
+            same = (got[0] == mtok[0]) and (mc.same(got[1], mtok[1], TOL) if got[0] == "val" else got[1] == mtok[1])
+            if not same and (ok or nameless):
+                probs.append(Problem("correspondence", f"{label}: impl {got} vs model {mline}", "C03.derived_model"))
+        return probs
 
     # ---------------------------------------------------------------- oracle
     def oracle(self, case, fn, meth, agg):
@@ -333,6 +515,8 @@ class CHECK(Check):
         if "crash" in o:
             return [Problem("harness", f"impl adapter crashed: {o}")]
         probs = []
+        if case.get("dm"):
+            probs += self.judge_dm(case, o, None if mo is None else mo[len(case["combos"])])
         for j, ((fn, meth, agg), got) in enumerate(zip(case["combos"], o["results"])):
             label = f"{fn}({meth or ''}{',' + agg if agg else ''})"
             want = self.oracle(case, fn, meth, agg)
@@ -424,5 +608,13 @@ class CHECK(Check):
                 tags.append("raises")
             elif r[1] == "nan":
                 tags.append("nan_result")
+        if case.get("dm"):
+            d = case["dm"]
+            tags += ["dm:kind=" + d["kind"], "dm:transform=" + (d["transform"] if d["transform"] in DM_TRANSFORMS else "invalid"),
+                     "dm:spn=" + ("None" if d["spn"] is None else "default" if d["spn"] == "default" else ",".join(d["spn"]) or "[]")]
+            if o.get("dm"):
+                tags.append("dm:outcome=" + (o["dm"][0] if o["dm"][0] == "val" else o["dm"][0] + ":" + str(o["dm"][1])))
+            if d["method"] is not None:
+                tags.append("dm:method=" + d["method"])
         key = (tuple(case["y"]), tuple(case["pred"]), tuple(case["w"] or ()), tuple(keys))
         return key, n >= 2, sorted(set(tags))
